@@ -20,6 +20,7 @@ func ruleC13(r *Report) {
 	r.Rule("C13.always-signed", "when a signature method is configured, every message constructor returns only objects on which its Sign* step succeeded (POST AuthnRequest, LogoutRequest, LogoutResponse, ArtifactResolve), and the redirect URL carries the signature", 2)
 	r.Rule("C13.enveloped", "each Sign* stores as Signature the last child of SignEnveloped(X.Element()) under err == nil, and every Element() builder re-embeds the stored Signature", 6)
 	r.Rule("C13.signed-octets", "the string given to SignString is emitted unchanged, followed only by &Signature=..., and consists of exactly SAMLRequest=<escaped>[&RelayState=<escaped>]&SigAlg=<escaped>", 1)
+	r.Rule("C13.emitted", "every serialisation of a signed message (the outbound message types' methods, the functions that call a Sign* step, and the helpers they hand the tree to) uses the canonical write settings and the attribute '>' escaper, so that the receiver's parser rebuilds the tree whose digest was signed (a CR written raw is normalised away and the enveloped signature no longer verifies)", 4)
 	r.Rule("C13.metadata", "SP metadata publishes a use=signing key descriptor built from sp.Certificate whenever a signature method is configured (no other condition), and AuthnRequestsSigned accordingly", 1)
 
 	checkMethodKey(r, p)
@@ -27,6 +28,28 @@ func ruleC13(r *Report) {
 	checkEnveloped(r, p)
 	checkSignedOctets(r, p)
 	checkSPMetadataSigning(r, p)
+	signers := map[*ssa.Function]bool{}
+	for _, fn := range p.modFns {
+		if p.InLibrary(fn) && len(callsTo(fn, "(*github.com/russellhaering/goxmldsig.SigningContext).SignEnveloped")) > 0 {
+			signers[fn] = true
+		}
+	}
+	checkEscape(r, p, "C13.emitted", func(fn *ssa.Function) bool {
+		if fn.Signature.Recv() != nil && (isMethodOf(fn, "AuthnRequest") || isMethodOf(fn, "LogoutRequest") || isMethodOf(fn, "LogoutResponse") || isMethodOf(fn, "ArtifactResolve")) {
+			return true
+		}
+		if fn.Pkg == nil || fn.Pkg.Pkg.Path() != modPath {
+			return false
+		}
+		for _, b := range fn.Blocks {
+			for _, in := range b.Instrs {
+				if c, ok := in.(ssa.CallInstruction); ok && c.Common().StaticCallee() != nil && signers[c.Common().StaticCallee()] {
+					return true
+				}
+			}
+		}
+		return false
+	})
 }
 
 func checkMethodKey(r *Report, p *Prog) {
